@@ -1430,6 +1430,7 @@ Janet janet_call(JanetFunction *fun, int32_t argc, const Janet *argv) {
 #ifdef JANET_EV
         if (janet_vm.root_fiber != NULL && signal == JANET_SIGNAL_EVENT) {
             janet_vm.root_fiber->sched_id++;
+            janet_async_end(janet_vm.root_fiber);
         }
 #endif
         if (signal != JANET_SIGNAL_ERROR) {
